@@ -191,13 +191,15 @@ def extract():
             rows.append((rel, "clock", "%s:%s" % (enclosing_fn(spans, mm.start()), mm.group(1))))
         for mm in re.finditer(r"\b(rand::|thread_rng|RandomState::new|getrandom)", m):
             rows.append((rel, "random", "%s:%s" % (enclosing_fn(spans, mm.start()), mm.group(1).rstrip(":"))))
-        names = hash_locals(m) | fields
-        if not names:
-            continue
+        names = hash_locals(m) | fields | {"__none__"}
         alt = "|".join(sorted(re.escape(n) for n in names))
         for mm in re.finditer(r"(?<![A-Za-z0-9_])((?:[a-z_][a-z0-9_]*\s*\.\s*)*)(%s)\s*\.\s*(%s)\s*\(" % (alt, ITER_METHODS), m):
             # a local that merely shares its name with a hash-typed field of another struct, in a file where
             # it is declared with a non-hash type, is still reported: the allow-list decides
+            rows.append((rel, "hash-iter", "%s:%s.%s%s" % (enclosing_fn(spans, mm.start()), mm.group(2), mm.group(3), " +sorted" if sorted_after(m, spans, mm.start()) else "")))
+        # set operations exist only on (hash / btree) sets: their result is iterated in the receiver's order,
+        # whatever the receiver is called (pattern-bound names carry no type annotation)
+        for mm in re.finditer(r"(?<![A-Za-z0-9_])((?:[a-z_][a-z0-9_]*\s*\.\s*)*)([a-z_][a-z0-9_]*)\s*\.\s*(difference|symmetric_difference|intersection|union)\s*\(", m):
             rows.append((rel, "hash-iter", "%s:%s.%s%s" % (enclosing_fn(spans, mm.start()), mm.group(2), mm.group(3), " +sorted" if sorted_after(m, spans, mm.start()) else "")))
         for mm in re.finditer(r"\bfor\s+[^;{]*?\bin\s+&?\s*(?:mut\s+)?((?:[a-z_][a-z0-9_]*\s*\.\s*)*)(%s)\s*\{" % alt, m):
             rows.append((rel, "hash-iter", "%s:%s.for%s" % (enclosing_fn(spans, mm.start()), mm.group(2), " +sorted" if sorted_after(m, spans, mm.start()) else "")))
